@@ -677,10 +677,12 @@ def ruleDateTimeDateTime(
 def ruleTODTOD(ts: datetime, t1: Time, _: RegexMatch, t2: Time) -> Interval:
     if (t1.hour > t2.hour) and (t1.hour <= 12 and t2.hour <= 12):
         # build a new value: t2 is shared with other partial parses
-        t2 = Time(hour=t2.hour + 12, minute=t2.minute)
-        return Interval(t_from=t1, t_to=t2)
-    else:
-        return Interval(t_from=t1, t_to=t2)
+        t2_pm = Time(hour=t2.hour + 12, minute=t2.minute)
+        # 12-0 is noon to midnight, not noon to noon: only move the end by
+        # 12 hours if that puts it after the start
+        if (t2_pm.hour, t2_pm.minute or 0) > (t1.hour, t1.minute or 0):
+            return Interval(t_from=t1, t_to=t2_pm)
+    return Interval(t_from=t1, t_to=t2)
 
 
 @rule(predicate("isPOD"), _regex_to_join, predicate("isPOD"))
@@ -717,7 +719,13 @@ def ruleDateInterval(ts: datetime, d: Time, i: Interval) -> Optional[Interval]:
 
     if t_from and t_to and t_from.dt >= t_to.dt:
         # "9-5" edge case, this is a common implicit am to pm interval
-        if (type(t_from.hour) == int and type(t_to.hour) == int) and (t_from.hour <= 12 and t_to.hour <= 12) and (t_from.hour >= t_to.hour):
+        # (only if that puts the end after the start: 12-0 is noon to midnight)
+        if (
+            (type(t_from.hour) == int and type(t_to.hour) == int)
+            and (t_from.hour <= 12 and t_to.hour <= 12)
+            and (t_from.hour >= t_to.hour)
+            and t_to.dt + relativedelta(hours=12) > t_from.dt
+        ):
             t_to_dt = t_to.dt + relativedelta(hours=12)
             t_to = Time(
                 year=t_to_dt.year,
